@@ -3,6 +3,8 @@ let () =
   | _ :: "pos" :: _ -> L_pos.run ()
   | _ :: "unify" :: _ -> L_unify.run ()
   | _ :: "load" :: _ -> L_load.run ()
+  | _ :: "merge" :: _ -> L_merge.run ()
+  | _ :: "uri" :: _ -> L_uri.run ()
   | _ ->
       prerr_endline "usage: oalmodel <layer>";
       exit 2
